@@ -691,6 +691,12 @@ func (se *SpecEnv) call(x *ast.CallExpr) (Val, error) {
 			return Val{T: sel(fc.compAt(se.st, "CN.cap", arraySort("Int")), p.T), S: SInt, Typ: tInt}, nil
 		}
 		return Val{T: sel(fc.compAt(se.st, "CN.closed", arraySort("Bool")), p.T), S: SBool, Typ: tBool}, nil
+	case "failed":
+		p, err := se.expr(x.Args[0])
+		if err != nil {
+			return Val{}, err
+		}
+		return Val{T: mkEq(sel(fc.compAt(se.st, ghFailed, arraySort("Int")), p.T), "1"), S: SBool, Typ: tBool}, nil
 	case "consumed", "count", "teesrc", "teedst":
 		p, err := se.expr(x.Args[0])
 		if err != nil {
@@ -698,6 +704,18 @@ func (se *SpecEnv) call(x *ast.CallExpr) (Val, error) {
 		}
 		comp := map[string]string{"consumed": ghConsumed, "count": ghCount, "teesrc": ghTeeSrc, "teedst": ghTeeDst}[name]
 		return Val{T: sel(fc.compAt(se.st, comp, arraySort("Int")), p.T), S: SInt, Typ: tInt}, nil
+	case "isflag":
+		// isflag(v): the atomic.Value holds a bool (so Load().(bool) cannot panic)
+		v, err := se.expr(x.Args[0])
+		if err != nil {
+			return Val{}, err
+		}
+		fc.vc.declareFun("typeOf", []string{"Int"}, "Int")
+		val := "(" + string(v.S) + ".val " + v.T + ")"
+		if v.S == SInt {
+			val = sel(fc.compAt(se.st, "F.sync.atomic.Value.val", arraySort("Int")), v.T)
+		}
+		return Val{T: mkAnd(mkNot(mkEq(val, "0")), mkEq("(typeOf "+val+")", fc.typeID(types.Typ[types.Bool]))), S: SBool, Typ: tBool}, nil
 	case "flag":
 		// flag(v): the bool stored in an atomic.Value (struct value or pointer to it)
 		v, err := se.expr(x.Args[0])
